@@ -204,6 +204,33 @@ def run_stream(res, work, tier, seed):
                 cfgr["skip_at"] = sorted(set(rng.choice(pts) for _ in range(rng.randrange(0, 3))))
                 cfgr["stop_at"] = sorted(set(rng.choice(pts) for _ in range(rng.randrange(0, 2))))
             runs.append({"run": rid, "cfg": cfgr, "ops": []})
+    # (3) long streams: stuff sequences that straddle / start at / end at large power-of-two offsets and read boundaries,
+    # with block sizes of 64 KiB and more (the default is 512 KiB)
+    def _long(pairs, n=140000):
+        st = [(i * 7 + 3) % 251 for i in range(n)]
+        for q in pairs:
+            st[q], st[q + 1] = FE, FD
+        return st
+    # one pair only (offsets are relative to the chunker's buffer, which restarts after every sentinel), a second pair
+    # the same distance after the first, and several pairs in one stream
+    longs = [_long([65536 + sh]) for sh in (-1, 0, -2)] + [_long([3000 + sh, 4096 + sh, 65536 + sh, 131072 + sh]) for sh in (-1,)]
+    longs += [_long([65535, 65537 + 65535])]
+    if tier != "quick":
+        longs += [_long([131072 + sh]) for sh in (-1, 0, -2)] + [_long([3000 + sh, 4096 + sh, 65536 + sh, 131072 + sh]) for sh in (0, -2)]
+        longs += [_long([4095, 4097 + 65535]), _long([65534, 65536 + 65536])]
+    n_long = 0
+    for st in longs:
+        for block in ([65536, -1, 131072] if tier == "quick" else [4096, 65536, 65537, 131072, -1, 1 << 20]):
+            scheds = [[], [3000], [65536], [65535, 0, 1], [4096, 0]]
+            for sched in ([rng.choice(scheds)] if tier == "quick" else scheds):
+                rid += 1
+                n_long += 1
+                runs.append({"run": rid, "cfg": {"kind": "chunker", "stream": st, "block": block, "sched": sched,
+                                                 "prep": rng.choice([-1, -3, 0, 5])}, "ops": []})
+                if tier != "quick" or rng.random() < 0.5:
+                    rid += 1
+                    runs.append({"run": rid, "cfg": {"kind": "reader", "stream": st, "block": block, "sched": sched,
+                                                     "max": rng.choice([-1, 70000]), "limit": -1}, "ops": []})
     trace = core.drive("stream", runs, work, "stream")
     tv = tlc.validate_trace("StreamTrace", "StreamTrace.cfg", trace, os.path.join(work, "tv"), timeout=3000)
     by_id = {r["run"]: r for r in runs}
